@@ -72,3 +72,13 @@ NOT_APPLICABLE = {
 }
 
 NOT_BUILT = "not built yet in this session (planned, see DESIGN.md §3); not claimed"
+
+CLAIMED['C09'] = dict(
+    level='other',
+    text="For ~900 shapes with up to 6 nested conditionals (in operands, slices, compose parts, memory pointers, conditions "
+         "and branches) the real possible_values() output is checked by validity queries over all valuations: the "
+         "disjunction of the alternatives' constraint sets is valid, and each alternative's constraints imply value == "
+         "original (refsem).",
+    note="Trusted: z3, vf/refsem.py. 8-bit values; conditions of 1 and 8 bits; shapes from a fixed grammar.",
+    technique="SMT validity queries over the output of the real possible_values per shape",
+    design_ref="DESIGN.md §3 C09", engine='refsem')
